@@ -91,12 +91,16 @@ func refResolve(exists func(rt, role string) bool, rt, role string) (string, str
 type tplPart struct {
 	Lit string
 	Var string
+	// PrefixedOverride(varname, prefix): the utility function that reads the supplied variables
+	PoVar, PoPrefix string
 }
 
 func tplText(ps []tplPart) string {
 	var sb strings.Builder
 	for _, p := range ps {
-		if p.Var != "" {
+		if p.PoVar != "" {
+			sb.WriteString(fmt.Sprintf("{{ util.PrefixedOverride(%q, %q) }}", p.PoVar, p.PoPrefix))
+		} else if p.Var != "" {
 			sb.WriteString("{{ " + p.Var + " }}")
 		} else {
 			sb.WriteString(p.Lit)
@@ -105,10 +109,31 @@ func tplText(ps []tplPart) string {
 	return sb.String()
 }
 
+// refPrefixedOverride: prefix_var if supplied and not "none"/blank, else var if supplied and not
+// "none"/blank, else "" (documented behaviour of the utility function).
+func refPrefixedOverride(vars map[string]string, v, prefix string) string {
+	usable := func(k string) (string, bool) {
+		x, ok := vars[k]
+		if !ok || x == "none" || strings.TrimSpace(x) == "" {
+			return "", false
+		}
+		return x, true
+	}
+	if x, ok := usable(prefix + "_" + v); ok {
+		return x
+	}
+	if x, ok := usable(v); ok {
+		return x
+	}
+	return ""
+}
+
 func tplRef(ps []tplPart, vars map[string]string) string {
 	var sb strings.Builder
 	for _, p := range ps {
-		if p.Var != "" {
+		if p.PoVar != "" {
+			sb.WriteString(refPrefixedOverride(vars, p.PoVar, p.PoPrefix))
+		} else if p.Var != "" {
 			sb.WriteString(vars[p.Var]) // undefined renders empty
 		} else {
 			sb.WriteString(p.Lit)
@@ -218,6 +243,10 @@ func c20ResolutionSet(c *vlib.Ctx, idx int64) {
 				if r.Intn(4) == 0 {
 					parts = append(parts, tplPart{Lit: " u="}, tplPart{Var: "undefined_var"})
 				}
+				if len(varNames) > 0 && r.Intn(2) == 0 {
+					// a utility function that looks variables up by name at call time
+					parts = append(parts, tplPart{Lit: " po="}, tplPart{PoVar: varNames[r.Intn(len(varNames))], PoPrefix: "pfx"})
+				}
 				tpls[k] = parts
 				putEntry(cm, cd.rt, cd.role, entry, tplText(parts))
 			}
@@ -256,6 +285,9 @@ func c20ResolutionSet(c *vlib.Ctx, idx int64) {
 		}
 		if extra {
 			m["extra_"+tag] = "EXTRA" + tag
+			if len(varNames) > 0 {
+				m["pfx_"+varNames[0]] = "PFX" + tag
+			}
 		}
 		return m
 	}
